@@ -313,7 +313,10 @@ def judge_entry(part, exp, common, rep):
             cov["child_runs_errored"] = cov.get("child_runs_errored", 0) + 1
         # result written by the child
         if ex["res_file"] is None:
-            return bad("result-file-missing", "the child run left no readable result file")
+            if ref["res_file"] is None:
+                cov["no_result_file_in_parent_either"] = cov.get("no_result_file_in_parent_either", 0) + 1
+                return None
+            return bad("result-file-missing", "the child run left no readable result file (the in-process run did)")
         if ex["err"] is not None and (ex["res_file"]["errored"] is not True or ex["res_file"]["outputs"] is not None):
             return bad("result-file-differs:errored-run-read-back-as-success",
                        f"the child run raised {ex['err']}, the result it wrote reads back as {ex['res_file']}")
